@@ -4,7 +4,7 @@
 tag=$1; prop=$2; tier=${3:-quick}
 cd /verif
 git -C /repo diff --quiet || { echo "/repo not clean"; exit 3; }
-git -C /repo apply /verif/seeded/$tag/patch.diff || { echo "patch does not apply"; exit 3; }
+p=/verif/seeded/$tag/patch.diff; [ -f /verif/seeded/$tag/patch.rebased.diff ] && p=/verif/seeded/$tag/patch.rebased.diff; git -C /repo apply $p || { echo "patch does not apply"; exit 3; }
 ./check $prop --tier $tier > /tmp/try_$tag_$prop.out 2>&1; rc=$?
 git -C /repo checkout -- .
 grep -c '^VIOLATION' /tmp/try_$tag_$prop.out | sed "s/^/violations: /"
